@@ -56,7 +56,7 @@ def helm(name, octave):
 def run(shard, ctx):
     kind = shard["kind"]
     if kind == "pitch":
-        names = list(T.pure_names(shard["k"])) + (["C#b", "Db#", "E##b"] if shard["k"] > 2 else [])
+        names = list(T.pure_names(shard["k"])) + ["C#b", "Db#", "E##b", "Bb#", "F#b#"]
         for n in names:
             for o in range(0, 10):
                 w = {"name": n, "octave": o}
@@ -148,7 +148,8 @@ def run(shard, ctx):
         ctx.sample({"Note('B#',3) == Note('C',4)": Note("B#", 3) == Note("C", 4), "Note('Cb',4) < Note('C',4)": Note("Cb", 4) < Note("C", 4)})
     elif kind == "hertz":
         step = shard["cent_step"]
-        for sp in shard["sps"]:
+        # octave-related standard pitches first: note x at 440 and note x+12 at 220 have the very same frequency
+        for sp in [220, 440, 880] + list(shard["sps"]):
             st, a4 = ctx.call(Note("A", 4).to_hertz, sp)
             ctx.check("hertz: A-4 sounds at the standard pitch", st == "ok" and abs(a4 - sp) <= 1e-9 * sp, {"standard_pitch": sp}, sp,
                       repr(a4))
